@@ -2,7 +2,7 @@
     The hard conjunct is "only replicas in service receive calls": world-frame lemmas say which
     addresses' scripted replica can change in every helper of the I/O, snapshot and resize paths. *)
 From Coq Require Import List ZArith Bool Arith Lia.
-From Jiva Require Import Ctl.Model Ctl.Corr Ctl.Oracles Ctl.Proofs Ctl.Props Ctl.RfConst Ctl.OracleProofs.
+From Jiva Require Import Ctl.Model Ctl.Corr Ctl.Oracles Ctl.Proofs Ctl.Props Ctl.RfConst Ctl.OracleProofs Ctl.OracleProofs2.
 Import ListNotations.
 Open Scope Z_scope.
 
@@ -365,11 +365,26 @@ Qed.
 
 (** the oracle does not look at the result of the previous event *)
 Lemma c18_step_model : forall rf0 n q s e r0 ef0 r0',
-  struct_ok s -> status_ok s -> rf s = rf0 -> ev_wf e = true ->
+  struct_ok s -> status_ok s -> rf s = rf0 -> keys_lt n s -> ev_wf e = true ->
   c18_step rf0 q (with_res1 (observe n s r0 ef0) r0') e
            (observe n (fst (fst (step s e))) (snd (fst (step s e))) (snd (step s e))) = true.
 Proof.
-  intros rf0 n q s e r0 ef0 r0' Hst Hss Hrf Hwf.
+  intros rf0 n q s e r0 ef0 r0' Hst Hss Hrf Hk Hwf.
+  (* every replica reported in service after an acknowledged write holds it: the fourth conjunct of
+     the C02 oracle on the same step *)
+  assert (C6 : match e with
+               | Write wid _ _ _ =>
+                   if is_ack (observe n (fst (fst (step s e))) (snd (fst (step s e))) (snd (step s e)))
+                   then forallb (fun a => holds (observe n (fst (fst (step s e))) (snd (fst (step s e))) (snd (step s e))) a wid)
+                          (in_service (o_replicas (observe n (fst (fst (step s e))) (snd (fst (step s e))) (snd (step s e)))))
+                   else true
+               | _ => true
+               end = true).
+  { destruct e; try reflexivity.
+    pose proof (c02_step_model rf0 n s (Write wid off len fs) r0 ef0 r0' Hss Hst Hk) as Hc.
+    unfold c02_step in Hc. cbv zeta in Hc.
+    match type of Hc with (if ?c then _ else _) = true => destruct c end; [|reflexivity].
+    apply andb_prop in Hc. exact (proj2 Hc). }
   pose proof (struct_step s e Hst Hwf) as H1.
   pose proof (status_step s e Hss) as [Hc1 _].
   pose proof (rf_step s e) as Hrf1.
@@ -393,20 +408,23 @@ Proof.
     destruct (mem a (in_service (replicas s))) eqn:Em; [reflexivity|].
     apply same_reps_eq_world; [lia|]. apply Hfr; [exact Hcall|].
     rewrite (writers_in_service_st s Hst). apply mem_false_not_in. exact Em. }
-  destruct e; try reflexivity; apply C5; reflexivity.
+  apply andb_true_intro. split; [destruct e; try reflexivity; apply C5; reflexivity|exact C6].
 Qed.
 
 Theorem c18_oracle_model : forall es rf0 n s r0 ef0 r0' i qs,
-  struct_ok s -> status_ok s -> rf s = rf0 -> forallb ev_wf es = true ->
+  struct_ok s -> status_ok s -> rf s = rf0 -> keys_lt n s ->
+  forallb ev_wf es = true -> forallb (ev_addrs_lt n) es = true ->
   walk_q (fun q => lift (c18_step rf0 q) (fun prev a b cur => c18_step rf0 q prev (SetMode 0%nat WO) cur))
          i (with_res1 (observe n s r0 ef0) r0') (map One es) (trace n s (map One es)) qs = None.
 Proof.
-  induction es as [|e t IH]; intros rf0 n s r0 ef0 r0' i qs Hst Hss Hrf Hwf; cbn [map trace walk_q]; [reflexivity|].
-  cbn [forallb] in Hwf. apply andb_prop in Hwf. destruct Hwf as [He Ht].
+  induction es as [|e t IH]; intros rf0 n s r0 ef0 r0' i qs Hst Hss Hrf Hk Hwf Hal; cbn [map trace walk_q]; [reflexivity|].
+  cbn [forallb] in Hwf, Hal. apply andb_prop in Hwf. destruct Hwf as [He Ht].
+  apply andb_prop in Hal. destruct Hal as [Hae Hat].
   cbn [xstep].
   destruct qs as [|q qs].
   { destruct (step s e) as [[s1 r] ef]. reflexivity. }
-  pose proof (c18_step_model rf0 n q s e r0 ef0 r0' Hst Hss Hrf He) as Hs.
+  pose proof (c18_step_model rf0 n q s e r0 ef0 r0' Hst Hss Hrf Hk He) as Hs.
+  pose proof (keys_lt_step n s e Hk Hae) as Hk1.
   pose proof (struct_step s e Hst He) as Hst1.
   pose proof (status_step s e Hss) as Hss1.
   pose proof (rf_step s e) as Hrf1.
@@ -415,18 +433,19 @@ Proof.
   change (with_res1 (observe n s1 r ef) None) with (observe n s1 r ef).
   rewrite Hs.
   change (observe n s1 r ef) with (with_res1 (observe n s1 r ef) None).
-  apply IH; [exact Hst1|exact Hss1|congruence|exact Ht].
+  apply IH; [exact Hst1|exact Hss1|congruence|exact Hk1|exact Ht|exact Hat].
 Qed.
 
 (** from the initial state: the C18 oracle accepts every trace of the model, whatever quiescence
-    flags the harness supplies *)
+    flags the harness supplies (add / start requests naming observed replicas: [holds] reads [o_reps]) *)
 Corollary c18_oracle_model_init : forall es rf0 n w0 qs, (1 <= rf0)%nat -> forallb ev_wf es = true ->
+  forallb (ev_addrs_lt n) es = true ->
   walk_q (fun q => lift (c18_step rf0 q) (fun prev a b cur => c18_step rf0 q prev (SetMode 0%nat WO) cur))
          0 (obs0 rf0 n w0) (map One es) (trace n (init rf0 w0) (map One es)) qs = None.
 Proof.
-  intros es rf0 n w0 qs H Hwf. unfold obs0.
+  intros es rf0 n w0 qs H Hwf Hal. unfold obs0.
   change (observe n (init rf0 w0) ROk noeff) with (with_res1 (observe n (init rf0 w0) ROk noeff) None).
-  apply c18_oracle_model; [apply struct_init; exact H|apply status_init; exact H|reflexivity|exact Hwf].
+  apply c18_oracle_model; [apply struct_init; exact H|apply status_init; exact H|reflexivity|apply keys_lt_init|exact Hwf|exact Hal].
 Qed.
 
 (** * the trace oracle of C13 holds on every trace of the model (single-request histories), for
@@ -715,86 +734,8 @@ Proof.
     destruct (find _ (replicas s)) as [[r0 m0]|]; [|apply ckn_refl]. left. reflexivity.
 Qed.
 
-(** ** listed replicas are observed replicas when add / start requests name addresses below [n] *)
-Definition addrs_lt (n : nat) (s : cst) : Prop := forall x, In x (keys (replicas s)) -> (x < n)%nat.
-Definition ev_lt (n : nat) (e : event) : bool :=
-  match e with
-  | AddCommit a _ => Nat.ltb a n
-  | Start l _ => forallb (fun a => Nat.ltb a n) l
-  | _ => true
-  end.
-
-Lemma ads_keys : forall s fs a y, In y (keys (replicas (fst (add_during_start s fs a)))) ->
-  y = a \/ In y (keys (replicas s)).
-Proof.
-  intros s fs a y. unfold add_during_start.
-  destruct (create_backend s fs a) as [[s1 i]|] eqn:Hcb; [|intros Hy; right; exact Hy].
-  pose proof (struct_create_backend _ _ _ _ _ Hcb) as [R1 _].
-  destruct (flt fs a KSize); [intros Hy; right; cbn in Hy; rewrite R1 in Hy; exact Hy|].
-  set (s2 := if csize s1 =? maxint then _ else s1).
-  assert (R2 : replicas s2 = replicas s) by (subst s2; destruct (csize s1 =? maxint); exact R1).
-  destruct (negb (csize s2 =? f_size (wget (w s1) a))); [intros Hy; right; cbn in Hy; rewrite R2 in Hy; exact Hy|].
-  pose proof (fun z => add_replica_keys s2 fs a i false z) as Hadd.
-  destruct (add_replica_nolock s2 fs a i false) as [s3 r]. cbn [fst] in Hadd.
-  assert (G : forall t, sub_keys s3 t -> In y (keys (replicas t)) -> y = a \/ In y (keys (replicas s))).
-  { intros t Ht Hy. destruct (Hadd y (Ht y Hy)) as [E|E]; [left; exact E|right; rewrite <- R2; exact E]. }
-  assert (Rm : sub_keys s3 (remove_replica_nolock s3 fs a)) by apply sk_remove.
-  destruct r; try (cbn [fst]; apply (G (rm_from_registered s3)); apply sk_of_sst; unfold rm_from_registered; apply sst_upd_leader).
-  destruct (flt fs a KClone); [exact (G _ Rm)|].
-  assert (G2 : In y (keys (replicas (fst (if flt fs a KSetModeRW then (remove_replica_nolock s3 fs a, RErr)
-                  else (set_mode_nolock (upd_rep s3 a (fun f => f_set_mode f RRW)) a RW, ROk))))) ->
-               y = a \/ In y (keys (replicas s))).
-  { destruct (flt fs a KSetModeRW); cbn [fst]; [exact (G _ Rm)|].
-    apply G. eapply sk_trans; [apply sk_of_sst; apply sst_upd_rep|apply sk_set_mode]. }
-  destruct (f_clone (wget (w s3) a)); try exact G2. exact (G _ Rm).
-Qed.
-
-Lemma sk_fold_set_mode_err : forall {A} (l : list A) (g : A -> bool) (k : A -> addr) s,
-  sub_keys s (fold_left (fun acc p => if g p then acc else set_mode_nolock acc (k p) ERR) l s).
-Proof.
-  intros A l g k. induction l as [|x t IH]; intros s; cbn [fold_left]; [apply sk_refl|].
-  eapply sk_trans; [|apply IH]. destruct (g x); [apply sk_refl|apply sk_set_mode].
-Qed.
-
-Lemma start_keys : forall s l fs y, (length l <= 1)%nat ->
-  In y (keys (replicas (fst (fst (do_start s l fs))))) -> In y l \/ In y (keys (replicas s)).
-Proof.
-  intros s l fs y Hl. unfold do_start.
-  destruct l as [|a0 t]; [intros Hy; right; exact Hy|].
-  destruct t as [|a1 t]; [|cbn in Hl; lia].
-  destruct (replicas s) eqn:Er; [|intros Hy; right; rewrite <- Er; exact Hy].
-  destruct (negb (signalled s) || negb _); [intros Hy; right; cbn in Hy; rewrite Er in Hy; exact Hy|].
-  set (s0 := upd_csize _ maxint).
-  cbn [start_adds].
-  pose proof (ads_keys s0 fs a0 y) as Hk.
-  destruct (add_during_start s0 fs a0) as [s1 r]. cbn [fst] in Hk.
-  assert (G : forall t, sub_keys s1 t -> In y (keys (replicas t)) -> In y [a0] \/ In y []).
-  { intros t Ht Hy. destruct (Hk (Ht y Hy)) as [E|E]; [left; left; symmetry; exact E|right; exact E]. }
-  assert (Sf : forall t, sub_keys t (start_frontend t)).
-  { intros t. unfold start_frontend. destruct (replicas t) eqn:E; [apply sk_refl|]. apply sk_of_sst. apply sst_upd_fe. }
-  destruct r; try (cbn [fst]; apply G; apply Sf).
-  destruct (existsb (fun p => flt fs (fst p) KRev) (replicas s1)); [cbn [fst]; apply G; apply Sf|].
-  cbn [fst]. apply G. eapply sk_trans; [|apply Sf].
-  eapply sk_trans; [|apply sk_of_sst; apply sst_update_checkpoint].
-  eapply sk_trans; [|apply sk_of_sst; apply sst_update_vol_status].
-  match goal with |- sub_keys s1 (fold_left ?f ?l s1) =>
-    change (sub_keys s1 (fold_left (fun acc p => if (fun q => snd q =? fold_left Z.max (map snd l) 0) p then acc
-                                               else set_mode_nolock acc (fst p) ERR) l s1)) end.
-  apply sk_fold_set_mode_err.
-Qed.
-
-Lemma addrs_lt_step : forall n s e, ev_wf e = true -> ev_lt n e = true -> addrs_lt n s ->
-  addrs_lt n (fst (fst (step s e))).
-Proof.
-  intros n s e Hwf Hlt Hs x Hx.
-  destruct (in_dec Nat.eq_dec x (keys (replicas s))) as [Hi|Hni]; [apply Hs; exact Hi|].
-  pose proof (enter_only_by_add_or_start s e x Hx Hni) as He.
-  destruct e; try contradiction.
-  - cbn [step] in Hx. cbn in Hwf. apply Nat.leb_le in Hwf.
-    destruct (start_keys s addrs fs x Hwf Hx) as [Hin|Hin]; [|contradiction].
-    cbn in Hlt. rewrite forallb_forall in Hlt. apply Nat.ltb_lt. apply Hlt. exact Hin.
-  - subst x. cbn in Hlt. apply Nat.ltb_lt. exact Hlt.
-Qed.
+(** listed replicas are observed replicas when add / start requests name addresses below [n]:
+    [ev_addrs_lt], [keys_lt], [keys_lt_step] of Ctl/OracleProofs2.v *)
 
 (** ** an acknowledged snapshot is on every writer that did not fail the call *)
 Lemma snapshot_fold_chain : forall fs n ws s x, In x ws -> flt fs x KSnap = false ->
@@ -885,7 +826,7 @@ Proof.
 Qed.
 
 Lemma c13_step_model : forall rf0 n q s e r0 ef0 r0',
-  ck_inv s -> status_ok s -> rf s = rf0 -> addrs_lt n s -> ev_wf e = true -> ev_lt n e = true ->
+  ck_inv s -> status_ok s -> rf s = rf0 -> keys_lt n s -> ev_wf e = true -> ev_addrs_lt n e = true ->
   (q = true -> pend_mon (fst (fst (step s e))) = []) ->
   c13_step rf0 q (with_res1 (observe n s r0 ef0) r0') e
            (observe n (fst (fst (step s e))) (snd (fst (step s e))) (snd (step s e))) = true.
@@ -894,7 +835,7 @@ Proof.
   pose proof (ck_inv_step s e Hi Hwf) as [H1 [C1 M1]].
   destruct Hi as [Hst [Hcp Hmon]].
   pose proof (rf_step s e) as Hrf1.
-  pose proof (addrs_lt_step n s e Hwf Hel Hlt) as Hlt1.
+  pose proof (keys_lt_step n s e Hlt Hel) as Hlt1.
   pose proof (checkpoint_fresh_step s e Hst Hwf) as Hfr.
   unfold c13_step. apply andb_true_intro. split.
   - (* the snapshot gate *)
@@ -951,8 +892,8 @@ Fixpoint qs_sound (s : cst) (es : list event) (qs : list bool) : Prop :=
   end.
 
 Theorem c13_oracle_model : forall es rf0 n s r0 ef0 r0' i qs,
-  ck_inv s -> status_ok s -> rf s = rf0 -> addrs_lt n s ->
-  forallb ev_wf es = true -> forallb (ev_lt n) es = true -> qs_sound s es qs ->
+  ck_inv s -> status_ok s -> rf s = rf0 -> keys_lt n s ->
+  forallb ev_wf es = true -> forallb (ev_addrs_lt n) es = true -> qs_sound s es qs ->
   walk_q (fun q => lift (c13_step rf0 q) (c13_pair rf0))
          i (with_res1 (observe n s r0 ef0) r0') (map One es) (trace n s (map One es)) qs = None.
 Proof.
@@ -967,7 +908,7 @@ Proof.
   pose proof (ck_inv_step s e Hi He) as Hi1.
   pose proof (status_step s e Hss) as Hss1.
   pose proof (rf_step s e) as Hrf1.
-  pose proof (addrs_lt_step n s e He Hle Hlt) as Hlt1.
+  pose proof (keys_lt_step n s e Hlt Hle) as Hlt1.
   destruct (step s e) as [[s1 r] ef] eqn:E. cbn [fst snd] in *.
   cbn [walk_q lift].
   change (with_res1 (observe n s1 r ef) None) with (observe n s1 r ef).
@@ -977,7 +918,7 @@ Proof.
 Qed.
 
 Corollary c13_oracle_model_init : forall es rf0 n w0 qs, (1 <= rf0)%nat ->
-  forallb ev_wf es = true -> forallb (ev_lt n) es = true -> qs_sound (init rf0 w0) es qs ->
+  forallb ev_wf es = true -> forallb (ev_addrs_lt n) es = true -> qs_sound (init rf0 w0) es qs ->
   walk_q (fun q => lift (c13_step rf0 q) (c13_pair rf0))
          0 (obs0 rf0 n w0) (map One es) (trace n (init rf0 w0) (map One es)) qs = None.
 Proof.
@@ -992,7 +933,7 @@ Qed.
 
 (** the oracle sees listed replicas only through the [n] observed ones: with a listed replica outside
     that range (here n = 0) it rejects a trace of the model; histories of the check name addresses below
-    [n] only ([ev_lt]) *)
+    [n] only ([ev_addrs_lt]) *)
 Example c13_oracle_presupposes_observed_addresses :
   walk_q (fun q => lift (c13_step 1 q) (c13_pair 1)) 0 (obs0 1 0 ex_world) (map One ex_boot)
          (trace 0 (init 1 ex_world) (map One ex_boot)) [true; true] = Some 1%nat.
